@@ -389,7 +389,56 @@ var rulePools = &core.Rule{ID: "R04.3", Min: 6,
 				// (deferred calls and deferred closures run at function exit and are fine)
 				for _, ci := range core.Calls(f) {
 					put, isCall := ci.(*ssa.Call)
-					if !isCall || !core.MethodCalleeIs(&put.Call, "sync", "Pool", "Put") {
+					if !isCall {
+						continue
+					}
+					// a module helper that hands its parameter back to a pool counts as a Put of that argument
+					if g := put.Call.StaticCallee(); g != nil && core.InMod(g) && g.Blocks != nil {
+						for ai, a := range put.Call.Args {
+							isO := a == obj
+							for _, cl := range cellLoads {
+								if v, ok := a.(ssa.Instruction); ok && v == cl {
+									isO = true
+								}
+							}
+							if u, ok := a.(*ssa.UnOp); ok {
+								for _, cl := range cellLoads {
+									_ = cl
+								}
+								if al, ok := u.X.(*ssa.Alloc); ok {
+									for _, r := range *al.Referrers() {
+										if st, ok := r.(*ssa.Store); ok && st.Val == obj {
+											isO = true
+										}
+									}
+								}
+							}
+							if !isO || !putsParam(g, ai) {
+								continue
+							}
+							after := ""
+							reach := core.Reach(put.Block())
+							for _, u := range all {
+								if u == ssa.Instruction(put) || u.Parent() != f {
+									continue
+								}
+								if _, isStore := u.(*ssa.Store); isStore {
+									continue
+								}
+								later := false
+								if u.Block() == put.Block() {
+									later = core.InstrIndex(u) > core.InstrIndex(put)
+								} else if reach[u.Block()] {
+									later = true
+								}
+								if later {
+									after = c.Pos(u.Pos())
+								}
+							}
+							s.Check(after == "", key+": released through "+g.Name()+" as the last use", c.Pos(put.Pos()), "no use of the pooled value after it was handed back", "the pooled value is still used (at "+after+") after a helper put it back into the pool: another goroutine can take and reset it in between")
+						}
+					}
+					if !core.MethodCalleeIs(&put.Call, "sync", "Pool", "Put") {
 						continue
 					}
 					mi, ok := put.Call.Args[1].(*ssa.MakeInterface)
@@ -667,3 +716,17 @@ var ruleContracts = &core.Rule{ID: "R04.5", Min: 8, Slow: true,
 			}
 		}
 	}}
+
+
+// putsParam: g hands its parameter idx to (*sync.Pool).Put.
+func putsParam(g *ssa.Function, idx int) bool {
+	for _, ci := range core.Calls(g) {
+		if !core.MethodCalleeIs(ci.Common(), "sync", "Pool", "Put") {
+			continue
+		}
+		if mi, ok := ci.Common().Args[1].(*ssa.MakeInterface); ok && idx < len(g.Params) && mi.X == ssa.Value(g.Params[idx]) {
+			return true
+		}
+	}
+	return false
+}
